@@ -166,6 +166,20 @@ fn blocked_check(out: &mut CaseResult, state: u8, variant: u8, sender: u8, paylo
         ));
         return;
     }
+    // with no legacy wait-list entries there is nothing to migrate: a migration call (from anybody) may be accepted
+    // but must change nothing — in particular it must not lift the pause
+    for lim in [None, Some(0u32), Some(3u32)] {
+        let before = s.w.clone();
+        let _ = s.w.tx(&from, HUB, &HubExec::MigrateUnbondWaitList { limit: lim }, &[]);
+        if !s.w.same_state(&before) {
+            let paused = hub_params(&s.w).paused;
+            out.fail(v(
+                &format!("empty-migration-changed-state/{}", SENDERS[si]),
+                format!("state '{}': MigrateUnbondWaitList {{ limit: {:?} }} by {} with no legacy entries changed state (paused is now {:?})", STATE_KINDS[kind as usize], lim, from, paused),
+            ));
+            return;
+        }
+    }
     // unpausing restores the pre-pause answers
     if let Err(e) = s.w.tx(&owner, HUB, &pause_msg(Some(false)), &[]) {
         out.fail(v("owner-cannot-unpause", format!("state '{}': {}", STATE_KINDS[kind as usize], e)));
